@@ -128,6 +128,25 @@ def gen(chk):
     il("tagged_hash([TapLeaf 0x%s])" % rb(40).hex())
     tf("tagged-hash", ["TapLeaf"]); tf("nosuchfunction", ["0x00"]); il("sha256(sha256(0x00))"); il("hex(17)"); il("int(0x0000000001)")
     il("reverse(OP_DUP)")
+    # state carried from one call to the next inside ONE process (static scratch buffers, hash objects): a long argument, then a short one, then
+    # a long one again - as one bracketed expression, so that sharding cannot separate the calls
+    for fn in ("sha256", "ripemd160", "hash160", "hash256", "reverse", "hex", "prefix_compact_size"):
+        for a, b in ((100, 3), (64, 1), (65, 64), (128, 0)):
+            il("[%s(0x%s) %s(0x%s) %s(0x%s)]" % (fn, rb(a).hex(), fn, rb(b).hex(), fn, rb(a).hex()))
+    # ... and for the command form: earlier tf commands of the same session (the harness runs them first, in the same process, and discards
+    # their output; the model evaluates the last command alone)
+    def tfseq(pre, name, args):
+        cases.append("tf id=%d name=%s args=%s pre=%s" % (next(cid), th(name), ",".join(th(a) for a in args), ";".join("+".join(th(x) for x in grp) for grp in pre)))
+    for a, b in ((40, 32), (65, 1), (64, 33), (100, 2)):
+        tfseq([["tagged-hash", "TapLeaf", "0x" + rb(a).hex()]], "tagged-hash", ["TapLeaf", "0x" + rb(b).hex()])
+        tfseq([["tagged-hash", "TapBranch", "0x" + rb(a).hex()], ["tagged-hash", "TapLeaf", "0x" + rb(b).hex()]], "tagged-hash", ["TapLeaf", "0x" + rb(a).hex()])
+        for fn in ("sha256", "ripemd160", "hash160", "hash256", "reverse", "prefix-compact-size", "base58chk-encode", "bech32-encode"):
+            tfseq([[fn, "0x" + rb(a).hex()]], fn, ["0x" + rb(b).hex()])
+    tfseq([["base58chk-decode", b58chk(bytes([0]) + rb(20))[:-1] + "z"]], "base58chk-decode", [b58chk(bytes([5]) + rb(20))])
+    tfseq([["int", "0x0102030405"], ["nosuchfunction", "1"]], "int", ["0x0102"])
+    tfseq([["add", "0x0500", "0x0300"]], "sub", ["0x0500", "0x0300"])
+    good = b58chk(bytes([0]) + rb(20)); bad = good[:-1] + ("2" if good[-1] != "2" else "3")
+    il("[base58chkdec(%s) base58chkdec(%s) base58chkdec(%s)]" % (good, bad, good))
     S = {"transforms": cases}
     # opcode form: the hash opcodes on the same data
     oc = []
